@@ -212,7 +212,7 @@ CLAIMS = {
         'value and the AST reports the document.',
    note='Trusted: Coq kernel; model tied by correspondence; python oracle; harness. The printer direction is proved as well (C03_example_roundtrip: Example() of an accepted text is accepted again with the '
         'same shape, literals and key denotations; the encoder/decoder round trip over all Unicode scalar values with UTF-8 and surrogate '
-        'pairs). Partial: soundness of the parser (accepted => a rendering) is not proved; the AST clause is correspondence + oracle. No axioms.',
+        'pairs). The parser model is sound as well (C03_accept_iff: accepted exactly the renderings of trees without duplicate keys); the AST clause is correspondence + oracle. No axioms.',
    technique='Coq completeness proof of a parser model against a rendering relation (mutual induction, explicit fuel bound) + correspondence + oracle',
    ref='section 9, C03'),
  'C15': dict(
